@@ -102,6 +102,9 @@ def step (st : St) (line : String) : St × String :=
       if n = 0 ∨ ¬ inInt64 cap ∨ n > 4096 ∨ u > 64 then (st, "bad-op") else
       let route : Option Route := match rest with
         | ["mod"] => some (.mod n)
+        -- `dmod`: the cache is built WITHOUT any option — remap's documented default of 73 shards, whatever other
+        -- containers were configured earlier in the process (a constructor is a function of its own arguments)
+        | ["dmod"] => if n = 73 then some (.mod n) else none
         | [tk, t] =>
           if !(tk == "tab" || tk == "tabs") then none else
           match (t.splitOn ",").mapM parseNat? with
